@@ -139,6 +139,21 @@ def _asked_before(e, jn):
     return e
 
 
+def _mk(y, m, dd, jn):
+    """The Epoch for the civil date: a new object; or (one day in three) a new object that is first
+    asked for other views of itself; or (one day in nine) an object that held a date of another
+    year - of the other leap status where there is one - answered the same questions there, and
+    was then moved with set()."""
+    if jn % 9 == 4:
+        oy = y - 1 if cal.is_leap(y) != cal.is_leap(y - 1) and y - 1 >= Y_MIN else \
+            (y + 1 if y + 1 <= Y_MAX else y - 3)
+        e = Epoch(oy, 12, 31.75) if oy != 1582 else Epoch(oy, 3, 1.75)
+        e.leap(), e.year(), e.doy(), e.dow(), e.julian(), e.get_date()
+        e.set(y, m, dd)
+        return e
+    return _asked_before(Epoch(y, m, dd), jn)
+
+
 # ------------------------------------------------------------------ weekday
 
 def body_dow(case):
@@ -154,7 +169,7 @@ def body_dow(case):
         fr = _fracs(case, jn, FRACS)
         nfrac += len(fr)
         for dd in [d] + [d + f for f in fr]:
-            e = _asked_before(Epoch(y, m, dd), jn)
+            e = _mk(y, m, dd, jn)
             got = e.dow()
             if (math.floor(e.jde() - 0.5) + 2) % 7 != want:      # x - 0.5 is exact in floats
                 raise Violation("Epoch(%d, %d, %r).jde() = %r is not on that civil day"
@@ -240,7 +255,7 @@ def body_doy(case):
             raise Violation("Epoch.get_doy%r = %r; JD difference to 1 January + 1 = %d"
                             % (args, got, want), site="Epoch.get_doy", kind="doy",
                             date=[y, m, d], got=got, want=want)
-        e = _asked_before(Epoch(y, m, d), jn)
+        e = _mk(y, m, d, jn)
         got = e.doy()
         if got != want:
             raise Violation("Epoch(%d, %d, %d).doy() = %r; JD difference to 1 January + 1 = %d"
@@ -253,7 +268,7 @@ def body_doy(case):
                 raise Violation("Epoch.get_doy(%d, %d, %r) = %r; want %r"
                                 % (y, m, d + f, got, want + f), site="Epoch.get_doy",
                                 kind="doy_fraction", date=[y, m, d + f], got=got, want=want + f)
-            e = _asked_before(Epoch(y, m, d + f), jn + 3)
+            e = _mk(y, m, d + f, jn + 3)
             got = e.doy()
             ref = (e.jde() - jde0) + 1.0          # float rounding <= 1e-9, tolerance 1e-8
             if not abs(got - ref) <= TOL_FRAC:
@@ -331,7 +346,7 @@ def body_yearfrac(case):
     for (m, d) in _days(y):
         jn = cal.jdn(y, m, d)
         for dd in [d] + [d + f for f in _fracs(case, jn, FRACS_YEAR)]:
-            got = _asked_before(Epoch(y, m, dd), jn + 6).year()
+            got = _mk(y, m, dd, jn + 6).year()
             if math.floor(got) != y or not isinstance(got, float):
                 raise Violation("Epoch(%d, %d, %r).year() = %r: integer part is not the calendar "
                                 "year" % (y, m, dd, got), site="Epoch.year", kind="year_floor",
